@@ -320,7 +320,15 @@ impl<'a> Model<'a> {
                 let cmd = d.args.join(" ");
                 self.run_command(&cmd).map(Some)
             }
-            "include" => self.include(dir, &d.args[0]).map(Some),
+            "include" => {
+                // a temp file written further up in this source holds what was saved to it
+                if let Some(p) = spec::resolve_arg_in(self.project, dir, &d.args[0]) {
+                    if let Some((_, c)) = temps.iter().rev().find(|(q, _)| *q == p) {
+                        return Ok(Some(c.clone()));
+                    }
+                }
+                self.include(dir, &d.args[0]).map(Some)
+            }
             "write" => Ok(Some(d.args.join("\n"))),
             "temp" => {
                 let target = &d.args[0];
